@@ -42,7 +42,7 @@ Definition agrees (c : case) : bool :=
 Definition step_class (s : stepobs) : N :=
   match s with
   | St kind _ sa sb nl =>
-      if kind =? 1 then match at_rest_class sa nl with 0%N => at_rest_class sb 0 | c => c end
+      if kind =? 1 then match at_rest_class true sa nl with 0%N => at_rest_class false sb 0 | c => c end
       else if kind =? 2 then match closed_class sa nl with 0%N => closed_class sb 0 | c => c end
       else 0%N
   end.
